@@ -154,6 +154,7 @@ def o_chunked(case):
     if case["enc"] != "none" and any(c == "" for c in case["chunks"]):
         cls.add("compressed-chunk-with-empty-body")
     digs = []
+    cnt = 0
     evals = 0
     if mode == "all_partitions":
         if n > 15:
@@ -165,7 +166,7 @@ def o_chunked(case):
             cc = cut_classes(cuts, spans)
             cls |= cc
             if cc:
-                digs.append(digest([encoded.hex(), mask]))
+                cnt += 1
     elif mode == "all_1_2_cuts":
         for a in range(1, n):
             run_one(case, encoded, spans, expected, [a], 4096)
@@ -173,7 +174,7 @@ def o_chunked(case):
             cc = cut_classes([a], spans)
             cls |= cc
             if cc:
-                digs.append(digest([encoded.hex(), a]))
+                cnt += 1
         step = 1 if n <= 60 else 3
         for a in range(1, n, step):
             for b in range(a + 1, n, step):
@@ -182,7 +183,7 @@ def o_chunked(case):
                 cc = cut_classes([a, b], spans)
                 cls |= cc
                 if cc:
-                    digs.append(digest([encoded.hex(), a, b]))
+                    cnt += 1
     else:
         cuts = [c for c in case["cuts"] if 0 < c < n]
         run_one(case, encoded, spans, expected, cuts, case["bufsize"])
@@ -193,6 +194,8 @@ def o_chunked(case):
         cls |= cc
         if cc:
             digs.append(digest([encoded.hex(), cuts, case["bufsize"]]))
+    if mode in ("all_partitions", "all_1_2_cuts"):
+        return Res(nontrivial=bool(cnt), classes=sorted(cls), evals=evals, count=cnt)
     return Res(nontrivial=bool(digs), classes=sorted(cls), evals=evals, digests=digs)
 
 
